@@ -168,7 +168,23 @@ def main(tier: str) -> int:
                 got3 = [{"style": e["style"], "text": e["text"]} for e in o3["entries"]]
                 if got3 != want3:
                     run.violation("entries|after-edit", {"kind": "after-edit", **ctx, "want3": want3, "got3": got3})
-        # the heading-listing tool reports the same outline
+        # the heading-listing tool reports the same outline: its function on every document ...
+        if levels:
+            import contextlib
+            import re as _re0
+
+            from odfdo.scripts.headers import headers_document
+
+            buf = io.StringIO()
+            try:
+                with contextlib.redirect_stdout(buf):
+                    headers_document(doc, 999 if outline == 0 else outline)
+                lines0 = [ln for ln in buf.getvalue().split("\n") if _re0.match(r"^\d+(\.\d+)*\. ", ln)]
+            except Exception as ex:  # noqa: BLE001
+                lines0 = ["exc: " + repr(ex)]
+            if [ln.split(" ", 1)[0] for ln in lines0] != [w["text"].split(" ", 1)[0] for w in want]:
+                run.violation("headers-tool|outline-differs", {"kind": "script", **ctx, "script": lines0})
+        # ... and the command itself on a sample
         if script_budget > 0 and levels:
             script_budget -= 1
             with tempfile.TemporaryDirectory(prefix="verif_c20_") as d:
